@@ -27,7 +27,7 @@ _CONFIRMED = {}
 UB_OPS = set(["reseed_at", "reroot_at_node", "reroot_at_edge", "reroot_at_midpoint", "to_outgroup_position", "prune_taxa",
               "prune_taxa_with_labels", "retain_taxa", "retain_taxa_with_labels", "filter_leaf_nodes", "prune_subtree",
               "prune_leaves_without_taxa", "collapse_unweighted_edges", "resolve_polytomies", "suppress_unifurcations",
-              "randomly_reorient"])
+              "randomly_reorient", "prune_nodes"])
 
 OPS = ["reseed_at", "reseed_at", "reroot_at_node", "reroot_at_edge", "reroot_at_midpoint", "to_outgroup_position",
        "prune_taxa", "prune_taxa_with_labels", "retain_taxa", "retain_taxa_with_labels", "filter_leaf_nodes", "prune_subtree",
@@ -308,13 +308,15 @@ class C03(Machine):
             R = set(id(nd.taxon) for nd in drop)
             droptaxa = [nd.taxon for nd in drop]
             keep_taxa = [t for t in self.ns if id(t) not in R]
+            # "any iterable" is what the docstrings promise: list, set, tuple, one-shot iterator
+            form = [list, set, tuple, iter][k2 % 4]
             if op == "prune_taxa":
-                return (lambda: tree.prune_taxa(droptaxa, update_bipartitions=ub, suppress_unifurcations=su), True, R, A, ub, True)
+                return (lambda: tree.prune_taxa(form(droptaxa), update_bipartitions=ub, suppress_unifurcations=su), True, R, A, ub, True)
             if op == "prune_taxa_with_labels":
                 return (lambda: tree.prune_taxa_with_labels([t.label for t in droptaxa], update_bipartitions=ub, suppress_unifurcations=su),
                         True, R, A, ub, True)
             if op == "retain_taxa":
-                return (lambda: tree.retain_taxa(keep_taxa, update_bipartitions=ub, suppress_unifurcations=su), True, R, A, ub, True)
+                return (lambda: tree.retain_taxa(form(keep_taxa), update_bipartitions=ub, suppress_unifurcations=su), True, R, A, ub, True)
             if op == "retain_taxa_with_labels":
                 return (lambda: tree.retain_taxa_with_labels([t.label for t in keep_taxa], update_bipartitions=ub, suppress_unifurcations=su),
                         True, R, A, ub, True)
@@ -353,6 +355,11 @@ class C03(Machine):
                 if len(below) == len(leaves):
                     return None
                 R = set(id(x.taxon) for x in below if x.taxon is not None)
+                # asked to update the encoding only when no parent is left without children (a leaf without a taxon)
+                gone = set(id(x) for x in lst)
+                ubn = ub and all(any(id(c) not in gone for c in x._parent_node._child_nodes) for x in lst)
+                if ubn:
+                    return (lambda: tree.prune_nodes(lst, update_bipartitions=True, suppress_unifurcations=su), True, R, A, True, True)
                 return (lambda: tree.prune_nodes(lst), True, R, A, False, True)
             if op == "remove_child":
                 below = leaves_below(nd)
